@@ -314,12 +314,29 @@ floating_point_number = (
 # Basic arithmetic operations
 plus, minus, mult, div = map(pp.Literal, "+-*/")
 
+_arithmetic_operations = {
+    "*": lambda a, b: a * b,
+    "/": lambda a, b: a / b,
+    "+": lambda a, b: a + b,
+    "-": lambda a, b: a - b,
+}
+
+
+def _parse_arithmetic_chain(tokens: pp.ParseResults) -> float:
+    # infixNotation passes a whole left-associative chain at once: operand (operator operand)+
+    group = tokens[0]
+    value = group[0]
+    for i in range(1, len(group), 2):
+        value = _arithmetic_operations[group[i]](value, group[i + 1])
+    return value
+
+
 # Using infixNotation to manage precedence of operations
 arithmetic_expr = pp.infixNotation(
     floating_point_number,
     [
-        (mult | div, 2, pp.opAssoc.LEFT, lambda s, l, t: t[0][0] * t[0][2] if t[0][1] == "*" else t[0][0] / t[0][2]),
-        (plus | minus, 2, pp.opAssoc.LEFT, lambda s, l, t: t[0][0] + t[0][2] if t[0][1] == "+" else t[0][0] - t[0][2]),
+        (mult | div, 2, pp.opAssoc.LEFT, _parse_arithmetic_chain),
+        (plus | minus, 2, pp.opAssoc.LEFT, _parse_arithmetic_chain),
     ],
 )
 
